@@ -81,7 +81,7 @@ def san_key(rep):
         if m:
             return "src/%s:%s:%s" % (m.group(2), m.group(3), m.group(1))
     for x in rep:
-        m = re.search(r"/src/([\w./]+):\d+:\d+: runtime error: ([a-z -]+?)(?::| of | by | in |$)", x)
+        m = re.search(r"/src/([\w./]+):\d+:\d+: runtime error: ([a-zA-Z][a-zA-Z -]*?)(?:\s+-?\d|:| of | by | in |$)", x)
         if m:
             return "src/%s:%s" % (m.group(1), m.group(2).strip().replace(" ", "-"))
     return "sanitizer-report"
